@@ -22,6 +22,20 @@ P.fn(FX + 'IndexDestination.normal', name='IndexDestination.normal', params=dict
      ensures=['result == (self._cr_type != 1 and self._cr_type != 2)',
               '(1 if result else 0) + (1 if self._cr_type == 1 else 0) + (1 if self._cr_type == 2 else 0) == 1'], modifies=[])
 
+# The same three kinds on the entry itself (IndexUtils.digest files a page reference under see / see also / normal by these).
+# `type(self)` is read as IndexEntry: the constants are class attributes no subclass in the repository overrides (ground/entry-kinds
+# compares the sidecar constants with the real class on every run and checks that no subclass exists).
+P.const('type(self).TYPE_SEE', 1)
+P.const('type(self).TYPE_SEEALSO', 2)
+P.fn(FX + 'IndexEntry.see', name='IndexEntry.see', params=dict(self='IndexEntry'), returns='bool', kind='property',
+     ensures=['result == (self.type == 1)'], modifies=[])
+P.fn(FX + 'IndexEntry.seealso', name='IndexEntry.seealso', params=dict(self='IndexEntry'), returns='bool', kind='property',
+     ensures=['result == (self.type == 2)'], modifies=[])
+P.classes['IndexEntry'].props.update(see='IndexEntry.see', seealso='IndexEntry.seealso')
+P.fn(FX + 'IndexEntry.normal', name='IndexEntry.normal', params=dict(self='IndexEntry'), returns='bool', kind='property',
+     ensures=['result == (self.type != 1 and self.type != 2)',
+              '(1 if result else 0) + (1 if self.type == 1 else 0) + (1 if self.type == 2 else 0) == 1'], modifies=[])
+
 # ---------------------------------------------------------------------------------------------- splitColumns: order-preserving partition
 # The items are atoms (only their identity matters: the function merely moves them around); POS is a ghost labelling of the items by
 # their index (it exists iff the items are pairwise distinct, which holds for child nodes).  The function is verified in four segments
